@@ -779,7 +779,8 @@ impl Model for ThreadModel {
 }
 
 /// runs the loom models over the real ping_pong.rs in a child process each (a failing loom model panics, possibly twice)
-fn run_pingloom(out: &mut Outcome, quick: bool) -> Vec<Violation> {
+/// loom over the real ping_pong.rs. `prop` "C07" runs the models about the end of the connection ("end-*"), "C20" all of them.
+pub fn run_pingloom(out: &mut Outcome, quick: bool, prop: &str) -> Vec<Violation> {
     let mut vios = vec![];
     let dir = "/verif/pingloom";
     let build = std::process::Command::new("cargo").args(["build", "--release", "--offline"]).current_dir(dir).env("CARGO_NET_OFFLINE", "true").output();
@@ -798,7 +799,7 @@ fn run_pingloom(out: &mut Outcome, quick: bool) -> Vec<Violation> {
     let list = std::process::Command::new(&bin).arg("list").output().map(|o| String::from_utf8_lossy(&o.stdout).to_string()).unwrap_or_default();
     let mut report = vec![];
     let mut total = 0u64;
-    for m in list.lines().filter(|l| !l.is_empty()) {
+    for m in list.lines().filter(|l| !l.is_empty() && (prop == "C20" || l.starts_with("end-"))) {
         let o = std::process::Command::new("timeout").args([if quick { "30" } else { "600" }, &bin, "run", m]).env("RUST_BACKTRACE", "0").output();
         match o {
             Ok(o) => {
@@ -813,7 +814,7 @@ fn run_pingloom(out: &mut Outcome, quick: bool) -> Vec<Violation> {
                 } else {
                     let msg = se.lines().skip_while(|l| !l.contains("panicked at")).nth(1).unwrap_or("loom model failed").to_string();
                     report.push(json!({"model": m, "result": "violated", "message": msg}));
-                    vios.push(Violation { rule: "C20.ping-state-machine".into(), signature: m.to_string(), what: format!("loom model '{}' over the real src/proto/ping_pong.rs: {}", m, msg), replay: json!({"harness": "pingloom", "model": m}) });
+                    vios.push(Violation { rule: format!("{}.ping-state-machine", prop), signature: m.to_string(), what: format!("loom model '{}' over the real src/proto/ping_pong.rs: {}", m, msg), replay: json!({"harness": "pingloom", "model": m}) });
                 }
             }
             Err(e) => out.machinery_errors.push(format!("cannot run pingloom {}: {}", m, e)),
@@ -822,7 +823,11 @@ fn run_pingloom(out: &mut Outcome, quick: bool) -> Vec<Violation> {
     out.harness("pingloom (loom, all interleavings, real src/proto/ping_pong.rs)", json!(report));
     out.add_count("evaluations", total);
     out.add_count("traces_validated_against_impl", total);
-    out.guard_nonzero("loom interleavings", total);
+    // (a model that fails stops at its first failing interleaving and reports no count)
+    out.guard_nonzero("loom models run", report.len() as u64);
+    if vios.is_empty() {
+        out.guard_nonzero("loom interleavings", total);
+    }
     vios
 }
 
@@ -842,7 +847,7 @@ pub fn run(ctx: &Ctx) -> Outcome {
     let mut vs = VioSet::default();
     vs.merge(rep.agg.vios);
     vs.merge(rep2.agg.vios);
-    for v in run_pingloom(&mut out, quick) {
+    for v in run_pingloom(&mut out, quick, "C20") {
         vs.add(v);
     }
     out.violations = vs.into_vec();
